@@ -86,8 +86,10 @@ def enumerate_injections(ir, uni, kinds=None):
         if "subst-undefined" in kinds:
             v = ["zz $zz_undefined", "zz a${ZZ_undefined}b",
                  "%define zzq $zz_undefined", "%include $zz_undefined",
-                 "%import $zz_undefined"][n % 5]
-            out.append(_ins("subst-undefined", n % 5, url, idx, [v]))
+                 "%import $zz_undefined", "zz $(ZCSIM_ENV_NOT_SET)",
+                 "%define zzq x$(ZCSIM_ENV_NOT_SET)y",
+                 "%include $(ZCSIM_ENV_NOT_SET)/f.conf"][n % 8]
+            out.append(_ins("subst-undefined", n % 8, url, idx, [v]))
         if "subst-malformed" in kinds:
             out.append(_ins("subst-malformed", n % len(SUBST_MALFORMED), url,
                             idx, [SUBST_MALFORMED[n % len(SUBST_MALFORMED)]]))
